@@ -239,6 +239,13 @@ def run(ctx):
                                         it = tb.local([p for p in pl.proj if p["k"] == "index"][0]["local"], bj, sj)
                                         want = mk("Sub", ("field", ("param", 1, "self"), "b"), const(lo))
                                         hit = True
+                                        # a clamp of the INDEX to the table (`min(b - lo, len - 1)`) is never active: b <= hi and the table has
+                                        # hi - lo + 1 rows (R03-table-shape); a clamp of b itself is a different index and stays reported
+                                        if it != want and it[0] == "op" and it[1] == "min" and len(it[2]) == 2 and want in it[2]:
+                                            cap_ = [z_ for z_ in it[2] if z_ != want][0]
+                                            if cap_ == const(hi - lo) or (cap_[0] == "op" and cap_[1] == "Sub" and cap_[2][1] == const(1) and cap_[2][0][0] == "call"
+                                                                          and cap_[2][0][1].rsplit("::", 1)[-1] == "len" and tname in fmt(cap_[2][0])):
+                                                it = want
                                         ctx.check(it == want, "R03-table-index", "%s:%s" % (fk, tname), st2.span, "%s is indexed with self.b - %d" % (tname, lo), "%s is indexed with %s, expected self.b - %d" % (tname, fmt(it), lo))
         if not hit:
             ctx.fail("anchor-missing", "R03-table-index:%s:%s" % (fk, tname), f, "no indexed read of %s found in %s" % (tname, fk))
